@@ -31,3 +31,16 @@ pub fn run(n: usize) -> i32 {
     println!("codec: {:?}", crate::trace::check_codec(&run.res.msgs));
     0
 }
+
+pub fn tap_debug() -> i32 {
+    use crate::adv::{AttackCase, TapAction, TapSpec, run_attack};
+    let base = MpcCase::simple(crate::checks::c03::circ(2, 1), vec![vec![true, true], vec![true, false]], 1, vec![0, 1]);
+    for idxs in [vec![16, 17, 18, 19], vec![20, 21, 22, 23], vec![28, 29, 30, 31], vec![24, 25, 26, 27]] {
+        let taps = idxs.iter().map(|i| TapSpec { site: "garble_row".into(), idx: Some(*i), action: TapAction::Flip }).collect();
+        let a = AttackCase { taps, ..AttackCase::honest(base.clone(), 0) };
+        let run = run_attack(&a, &ExecCfg::default());
+        println!("{idxs:?} -> {:?} expected {:?}", run.res.outcomes, base.expected());
+    }
+    println!("{:?}", base.circ.insts);
+    0
+}
